@@ -22,12 +22,12 @@ ASSUMPTIONS = ["values are small non-negative integers (float64 sums exact)",
 def bounds(tier):
     if tier == "quick":
         return {"dense": "values 0..5, 1..6 items, 1..7 bins", "ilp": "values 0..4, 1..5 items, 1..4 bins",
-                "named formats": "dict(str names), dict(int names), names+valueof on 1..4 items",
+                "named formats": "dict(str names), dict(int names), names+valueof (unique names; one name per distinct value, repeated; numpy array of ids) on 1..4 items",
                 "big": "values {0, 1, 2**24+1, 2**31+1, 2**32+3, 2**40+5}, 1..4 items, 1..4 bins, all partitioners and all cg configurations",
                 "count-sweep": "every numbins k in 1..24 with k-1, k, k+1, 2k+1 items over {1,2,3}: greedy/roundrobin/multifit/kk/cg x 3 objectives (+cbldm k=2, snp where items <= k+1 and k <= 6)",
                 "long-thin": "9..15 items over {1,2}, 9..12 over {1,2,3}, 9..11 over {0,1,5} and {2,3,7}, bins {2,3,4,5,7,n,n+1}, non-sorted presentation: greedy/roundrobin/multifit/kk/cg(default switches, 3 objectives)/cbldm"}
     return {"dense": "values 0..7, 1..7 items, 1..8 bins", "ilp": "values 0..5, 1..6 items, 1..4 bins",
-            "named formats": "dict(str names), dict(int names), names+valueof on 1..5 items",
+            "named formats": "dict(str names), dict(int names), names+valueof (unique names; one name per distinct value, repeated; numpy array of ids) on 1..5 items",
             "big": "values {0, 1, 2**24+1, 2**31+1, 2**32+3, 2**40+5}, 1..5 items, 1..4 bins, all partitioners and all cg configurations",
             "count-sweep": "every numbins k in 1..70 with k-1, k, k+1, 2k+1 items over {1,2,3}: greedy/roundrobin/multifit/kk/cg x 3 objectives (+cbldm k=2, snp where items <= k+1 and k <= 6)",
             "long-thin": "9..24 items over {1,2}, 9..16 over {1,2,3}, 9..13 over {0,1,5} and {2,3,7}, bins {2,3,4,5,7,n,n+1}, non-sorted presentation: greedy/roundrobin/multifit/kk/cg(default switches, 3 objectives)/cbldm"}
@@ -41,7 +41,7 @@ def tasks(tier):
         ts.append(("dense-simple", ch, K, "list"))
         ts.append(("dense-cg", ch, K, "list"))
     Nn = 4 if q else 5
-    for fmt in ("dict_str", "dict_int", "names"):
+    for fmt in ("dict_str", "dict_int", "names", "names_rep", "array_names"):
         for ch in scopes.chunk_multisets(range(0, V + 1), 1, Nn, 60):
             ts.append(("named-simple", ch, K, fmt))
             ts.append(("named-cg", ch, K, fmt))
